@@ -16,7 +16,7 @@ func init() {
 		explanation: "Decided (structural, for every query tree): " +
 			"C10.exhaustive — the formatter's switch over the expression oneof has a case for every wrapper type, and each case formats that wrapper's own member; " +
 			"C10.parens — the parenthesisation table required by the parser (operands of '&', '|' and '^' are parsed by the simple-expression function, which yields AND/OR only through a parenthesised group — re-checked on the parser on every run) is T[NOT] ⊇ {AND, OR}, T[AND] ⊇ {OR}, T[OR] ⊇ {AND}; each operator formatter is symbolically executed once per assumed operand kind (getter/type tests on the operand resolved by the assumption, all other branches explored both ways): on every path each recursive formatting call for a kind in the table is immediately preceded by a write containing '(' and followed by one containing ')', and for other kinds writes are balanced; " +
-			"C10.quote — the formatter doubles quotes with ReplaceAll(s, `\"`, `\"\"`) and wraps in `\"%s\"`, the parser's decoder undoes it with the swapped constants; C10.unquote — the decoder removes exactly one delimiter at each end (only s[1:], s[:len-1], TrimPrefix/TrimSuffix of one quote) before undoing the doubling; comparison and placeholder formats are `%s = %s` / `%s = $%d` with the value passed through the quoting function; the group-by list is joined by ',' after ';'. " +
+			"C10.quote — the formatter doubles quotes with ReplaceAll(s, `\"`, `\"\"`) and wraps in `\"%s\"`, the parser's decoder undoes it with the swapped constants; C10.lexinput — the lexer scans exactly the string passed to ParseQuery (no rewriting of the raw text, which would alter quoted values); C10.unquote — the decoder removes exactly one delimiter at each end (only s[1:], s[:len-1], TrimPrefix/TrimSuffix of one quote) before undoing the doubling; comparison and placeholder formats are `%s = %s` / `%s = $%d` with the value passed through the quoting function; the group-by list is joined by ',' after ';'. " +
 			"NOT decided: the round-trip equality itself and the fixpoint of format∘parse (string values; need the parser's language, see C09).",
 		assumptions: []string{"the generated getters return the oneof member or nil", "go/ssa CFG"},
 	})
@@ -185,6 +185,7 @@ func runC10(c *Ctx) {
 	}
 	c10Quote(c, kindFmt)
 	unquoteRule(c, "C10.unquote")
+	lexInputRule(c, "C10.lexinput")
 }
 
 // matchSeq: ev consists of groups "ORC" (strict) or of "ORC" and bare "R" (non-strict).
@@ -344,6 +345,10 @@ func simulateFormatter(c *Ctx, f, exprFmt *ssa.Function, kindFmt map[string]*ssa
 		v2[b]++
 		p2 := map[ssa.Value]int{}
 		for k, n := range phis {
+			// a new loop iteration re-evaluates every non-phi condition: assumptions made for them do not carry over
+			if _, isPhi := k.(*ssa.Phi); !isPhi && visits[b] >= 1 {
+				continue
+			}
 			p2[k] = n
 		}
 		for _, ins := range b.Instrs {
@@ -363,6 +368,24 @@ func simulateFormatter(c *Ctx, f, exprFmt *ssa.Function, kindFmt map[string]*ssa
 				return
 			case *ssa.If:
 				r := evalBool(x.Cond, p2)
+				if r < 0 {
+					// an unknown condition keeps the value assumed for it earlier on this path: the same SSA value, or a
+					// call of the same module function with the same arguments (a pure predicate evaluated twice)
+					k := condKey(x.Cond)
+					if a, ok := p2[k]; ok {
+						r = a
+					} else {
+						pT := map[ssa.Value]int{}
+						pF := map[ssa.Value]int{}
+						for kk, n := range p2 {
+							pT[kk], pF[kk] = n, n
+						}
+						pT[k], pF[k] = 1, 0
+						dfs(b.Succs[0], b, pT, v2, ev)
+						dfs(b.Succs[1], b, pF, v2, ev)
+						return
+					}
+				}
 				if r != 0 {
 					dfs(b.Succs[0], b, p2, v2, ev)
 				}
@@ -644,4 +667,102 @@ func isLenOfChain(v, src ssa.Value) bool {
 		}
 	}
 	return false
+}
+
+// lexInputRule: the text the lexer scans is exactly the string handed to ParseQuery — no normalisation, trimming or
+// replacement on the raw text (which would also rewrite the contents of quoted values).
+func lexInputRule(c *Ctx, rule string) {
+	lexT := c.w.namedType(pkgParser, "lexer")
+	in := structFieldNamed(lexT, "input")
+	if in == nil {
+		c.r.undecided(rule, "<anchor>", "lexer.input not found")
+		return
+	}
+	n := 0
+	for _, fn := range c.w.ModFuncs {
+		if c.w.pkgPathOf(fn) != pkgParser {
+			continue
+		}
+		allInstrs(fn, func(i ssa.Instruction) {
+			st, ok := i.(*ssa.Store)
+			if !ok {
+				return
+			}
+			fa, ok := st.Addr.(*ssa.FieldAddr)
+			if !ok || fieldOf(fa.X.Type(), fa.Field) != in {
+				return
+			}
+			n++
+			why := passThrough(c, st.Val, fn, 0)
+			c.r.check(why == "", rule, fmt.Sprintf("%s: lexer input#%d", safeFname(fn), n), "the lexer scans ParseQuery's argument unchanged",
+				"the text given to the lexer is not ParseQuery's argument itself ("+why+"): any rewriting of the raw text also changes the contents of quoted values, so values do not survive parsing", c.w.ipos(i))
+		})
+	}
+	if n == 0 {
+		c.r.undecided(rule, "lexer input", "no assignment of the lexer's input found")
+	}
+}
+
+// passThrough: v is a parameter of fn that every caller fills with its own parameter, up to ParseQuery's argument.
+func passThrough(c *Ctx, v ssa.Value, fn *ssa.Function, depth int) string {
+	if depth > 5 {
+		return "call chain too deep"
+	}
+	p, ok := v.(*ssa.Parameter)
+	if !ok {
+		if call, isCall := v.(*ssa.Call); isCall {
+			return "it is the result of " + shortName(calleeName(&call.Call))
+		}
+		return "it is computed, not passed through"
+	}
+	if fn == c.a.ParseQuery {
+		return ""
+	}
+	idx := -1
+	for k, q := range fn.Params {
+		if q == p {
+			idx = k
+		}
+	}
+	node := c.w.CG.Nodes[fn]
+	if node == nil || len(node.In) == 0 {
+		return "no caller found for " + safeFname(fn)
+	}
+	for _, e := range node.In {
+		if e.Site == nil || !c.w.inModule(e.Caller.Func) {
+			continue
+		}
+		cc := e.Site.Common()
+		if calleeFunc(cc) != fn || idx >= len(cc.Args) {
+			continue
+		}
+		if why := passThrough(c, cc.Args[idx], e.Caller.Func, depth+1); why != "" {
+			return why
+		}
+	}
+	return ""
+}
+
+// condKey: a representative for an unknown branch condition, so that re-evaluations of the same predicate on one path
+// are taken consistently: the value itself, or for calls of module functions the first call with the same callee and arguments.
+var condReps = map[string]ssa.Value{}
+
+func condKey(v ssa.Value) ssa.Value {
+	call, ok := v.(*ssa.Call)
+	if !ok {
+		return v
+	}
+	f := calleeFunc(&call.Call)
+	if f == nil {
+		return v
+	}
+	key := fmt.Sprintf("%p", f)
+	for _, a := range call.Call.Args {
+		key += fmt.Sprintf("|%p", peel(a))
+	}
+	if r, ok := condReps[key]; ok {
+		return r
+	}
+	condReps[key] = v
+	return v
 }
